@@ -458,6 +458,69 @@ def run_pair(ctx, rng, leg_name, e3_name, kind, amap, fixed=None):
                        "legacy_wrote": got_l[:8], "ebb3_wrote": got_e[:8]})
 
 
+def run_sessions(ctx, rng, leg_ref, e3_ref):
+    """History: many helper calls on ONE connection object / ONE port, with immediate repeats of the
+    same call - every call must transmit its documented text, whatever was sent before."""
+    # --- EBB3 layer, one object
+    world = ebb3mon.World(board_kwargs={"version": "3.0.2", "en1": rng.random() < 0.5, "en2": rng.random() < 0.5,
+                                        "mode": rng.randint(1, 5)})
+    world.attach()
+    names = [n for n in e3_ref if n not in ("reboot", "bootload")]
+    prev = None
+    for i in range(rng.randint(8, 25)):
+        if prev is not None and rng.random() < 0.4:
+            name, args, pos = prev                      # the very same request again
+            cls = "session: same call repeated"
+        else:
+            name = rng.choice(names)
+            args, pos, _c = gen_args(rng, e3_ref[name][0])
+            cls = "session: another call on the same object"
+        prior = (world.board.en1, world.board.en2, world.board.mode)
+        mark = world.log.mark()
+        top, _ = ebb3mon.call_step(world, {"m": name, "a": pos})
+        problems = []
+        got = wire_lines(ctx, world.log, mark, problems)
+        ref = e3_ref[name][1](args, prior)
+        ctx.case(["ebb3", "session", cls], ("s3", name, json.dumps(pos), i, prior if name == "motors_enable" else 0))
+        witness = {"layer": "ebb3", "helper": name, "args": pos, "ref_args": args, "session_call": i,
+                   "repeated": cls.endswith("repeated")}
+        if top is None or "raised" in top:
+            ctx.violation("helper raised", dict(witness, exception=repr(top and top.get("raised"))))
+            break
+        if world.obj.err is not None:
+            break                                       # a pause of hours etc. cannot fail here; stop on any error
+        diff = compare(name, ref, got, False)
+        for pr in problems + ([diff] if diff else []):
+            ctx.violation(pr["kind"], dict(witness, **pr))
+        prev = (name, args, pos)
+    # --- legacy layer, one port
+    leg = Legacy()
+    names = [n for n in leg_ref if n not in ("serial.reboot", "serial.bootload")]
+    prev = None
+    for i in range(rng.randint(8, 25)):
+        if prev is not None and rng.random() < 0.4:
+            name, args, pos = prev
+            cls = "session: same call repeated"
+        else:
+            name = rng.choice(names)
+            args, pos, _c = gen_args(rng, leg_ref[name][0])
+            cls = "session: another call on the same object"
+        mark, _res, raised = leg.call(name, pos)
+        problems = []
+        got = wire_lines(ctx, leg.log, mark, problems)
+        ref = leg_ref[name][1](args)
+        ctx.case(["legacy", "session", cls], ("sl", name, json.dumps(pos), i))
+        witness = {"layer": "legacy", "helper": name, "args": pos, "ref_args": args, "session_call": i,
+                   "repeated": cls.endswith("repeated")}
+        if raised is not None:
+            ctx.violation("helper raised", dict(witness, exception=repr(raised)))
+            break
+        diff = compare(name, ref, got, name in GATED_LEGACY)
+        for pr in problems + ([diff] if diff else []):
+            ctx.violation(pr["kind"], dict(witness, **pr))
+        prev = (name, args, pos)
+
+
 def run_noport(ctx, rng, leg_ref, e3_ref):
     for name, (kind, _ref) in leg_ref.items():
         _a, pos, _c = gen_args(rng, kind)
@@ -507,6 +570,7 @@ def run(ctx):
             run_pair(ctx, rng, *pair)
         if i % 50 == 0:
             run_noport(ctx, rng, leg_ref, e3_ref)
+        run_sessions(ctx, rng, leg_ref, e3_ref)
     for name in leg_ref:
         ctx.need("legacy:" + name, 100)
     for name in e3_ref:
@@ -519,6 +583,8 @@ def run(ctx):
                 "sr:state non-zero", "no port:legacy", "no port:ebb3"):
         ctx.need(cls, 30)
     ctx.need("pause:more than 4000 chunks", 4)
+    ctx.need("session: same call repeated", 3000)
+    ctx.need("session: another call on the same object", 5000)
     ctx.need("monitor:writes parsed", 20000)
     ctx.need("monitor:layer pairs compared", 3000)
 
@@ -532,6 +598,9 @@ def replay(ctx, rec):
         kind, ref = leg_ref[w["helper"]]
         got = run_legacy(ctx, ctx.rng, w["helper"], kind, ref, fixed=(w["ref_args"], w["args"], ["replay"]))
         print("replay: legacy %s%r wrote %r" % (w["helper"], tuple(w["args"]), got))
+    elif w.get("session_call") is not None:
+        for _ in range(200):
+            run_sessions(ctx, ctx.rng, leg_ref, e3_ref)
     elif w["layer"] == "ebb3":
         kind, ref = e3_ref[w["helper"]]
         got = run_ebb3(ctx, ctx.rng, w["helper"], kind, ref, fixed=(w["ref_args"], w["args"], ["replay"]),
